@@ -3,6 +3,7 @@
 package c05
 
 import (
+	"errors"
 	"context"
 	"math/big"
 	"sync"
@@ -75,6 +76,9 @@ func (l *ledger) Register(_ context.Context, req channel.AdjudicatorReq, subStat
 		c.subIDs, c.subVersions, c.subNil = append(c.subIDs, s.State.ID), append(c.subVersions, s.State.Version), append(c.subNil, false)
 	}
 	l.calls = append(l.calls, c)
+	if l.fail {
+		return errors.New("ledger: registration failed")
+	}
 	return nil
 }
 
@@ -217,11 +221,17 @@ func (wd *world) event(i int) {
 	case 2:
 		ev = channel.NewConcludedEvent(c.id, &channel.ElapsedTimeout{}, e)
 	}
+	// the on-chain registration triggered by this event may fail
+	fail := rt.Bound("regFail", 1) == 1 && rt.NondetBool()
 	wd.l.mu.Lock()
+	wd.l.fail = fail
 	s := wd.l.subs[c.id]
 	wd.l.mu.Unlock()
 	s.ch <- ev
 	rt.Quiesce()
+	wd.l.mu.Lock()
+	wd.l.fail = false
+	wd.l.mu.Unlock()
 	wd.drain(i)
 	calls := wd.l.numCalls() - before
 	if kind != 0 {
@@ -250,13 +260,17 @@ func (wd *world) event(i int) {
 					}
 				}
 				rt.Assert("c05.refute.sub-states", ok)
-				if sc.watched && ok {
+				if sc.watched && ok && !fail {
 					sc.own = sc.newest
 				}
 			} else {
 				rt.Assert("c05.refute.no-sub-states", len(call.subIDs) == 0)
 			}
-			p.own = p.newest
+			if !fail { // a failed registration registered nothing: the next stale event is refuted again
+				p.own = p.newest
+			} else {
+				rt.Reach("c05.refute-failed")
+			}
 		}
 	case e >= c.newest:
 		rt.Reach("c05.not-refuted")
